@@ -260,7 +260,7 @@ impl Machine for Board {
 pub fn run_c39(cli: &Cli) -> Report {
     let mut rep = Report::new(cli, "model_checking");
     rep.rule("E2: every sequence of counted trades by 7 traders with volume increments {1,2,5} (thorough: {1,2,5,11}) through the real update_leaderboard (hook): at most five distinct entries, non-increasing, showing the latest volumes, filled with the top traders, nobody excluded from a full board has more volume than its last entry; plus E1 on extend_competition_time over end time, extension duration, cap and trigger time at the i64 limits: never earlier, never past max(old end, now + cap)");
-    rep.assume("end to end (E3, breadth first): real increase / decrease orders of seven traders (four put on the board by real trades beforehand) executed by the store with the competition program as callback (on_created / on_executed / on_closed CPIs signed by the store's callback authority), clock advances inside and beyond the merge window and past the end time: participant volumes equal the position size changes of executed orders inside the competition time, the merge-window / threshold bookkeeping decides extensions exactly as the reference, end time never earlier and never beyond max(old end, now + cap), and the board invariants hold on the stored account after every trade; svm-lite runtime trusted");
+    rep.assume("end to end (E3, breadth first): real increase / decrease orders of seven traders (four put on the board by real trades beforehand) executed by the store with the competition program as callback (on_created / on_executed / on_closed CPIs signed by the store's callback authority), clock advances inside and beyond the merge window and past the end time: after every trade the stored board holds at most five distinct traders in non-increasing order, each with the volume its participant account records, no participant off a full board records more than the last entry, and the stored end time is never earlier than before nor beyond max(old end, execution time + cap); agreement with a reference of the bookkeeping (which trades count, merge window, threshold) is counted, not required; svm-lite runtime trusted");
     svm::install();
     let th = cli.tier.thorough();
     let traders: [Pubkey; NT] = std::array::from_fn(|i| addr(&format!("trader-{i}")));
